@@ -91,7 +91,7 @@ Qed.
 Lemma field_head first origin fc f : field_ok first origin fc f = true ->
   exists h tl, render_field fc f = h :: tl /\ plainb h = true.
 Proof.
-  destruct f as [ls|n|n|n|a b c d|gs|s]; destruct fc as [nc|ic|c6|sc|]; cbn [field_ok render_field fc_name fc_int fc_ip6 fc_str];
+  destruct f as [ls|n|n|n|a b c d|gs|s|pp|pp]; destruct fc as [nc|ic|c6|sc| |pc]; cbn [field_ok render_field fc_name fc_int fc_ip6 fc_str fc_proto];
     try discriminate; intros H.
   - eapply name_head. exact H.
   - destruct (uint_head ic n) as (h & tl & E & _ & Hp). eauto.
@@ -110,6 +110,11 @@ Proof.
     + eexists _, _. split; reflexivity.
     + repeat (apply andb_true_iff in H; destruct H as [H ?]). destruct s as [|c s]; [discriminate|].
       destruct (octets_head _ _ _ H) as (h & tl & E & Hh). eauto.
+  - destruct pc as [lows|lows|ic]; cbn [render_proto].
+    + cbn [apply_case w_tcp]. destruct (hd false lows); eexists _, _; split; reflexivity.
+    + cbn [apply_case w_udp]. destruct (hd false lows); eexists _, _; split; reflexivity.
+    + destruct (uint_head ic pp) as (h & tl & E & _ & Hp). eauto.
+  - destruct (uint_head ic pp) as (h & tl & E & _ & Hp). eauto.
 Qed.
 
 Lemma field_fstart first origin fc f t : field_ok first origin fc f = true -> fstart (render_field fc f ++ t).
@@ -123,7 +128,7 @@ Proof. intros E H. eapply expect_differs_head; [exact E|reflexivity|exact H]. Qe
 Lemma field_not_bh origin fc f r t : field_ok true origin fc f = true -> r_rest r = render_field fc f ++ t ->
   expect_field bh r = Ok (false, r).
 Proof.
-  destruct f as [ls|n|n|n|a b c d|gs|s]; destruct fc as [nc|ic|c6|sc|]; cbn [field_ok render_field fc_name fc_int fc_ip6 fc_str];
+  destruct f as [ls|n|n|n|a b c d|gs|s|pp|pp]; destruct fc as [nc|ic|c6|sc| |pc]; cbn [field_ok render_field fc_name fc_int fc_ip6 fc_str fc_proto];
     try discriminate; intros H E.
   - (* name *)
     unfold name_ok in H. apply andb_true_iff in H. destruct H as [Hg H]. apply good_labels_b_spec in Hg. destruct Hg as [Hg _].
@@ -165,6 +170,11 @@ Proof.
       cbn [andb] in H0. apply negb_true_iff, beq_false in H0.
       rewrite <- (app_nil_r (render_octets es (c :: s))) in E, H0.
       eapply (tok_expect_bh es c s []); [exact H|left; reflexivity|exact H0|exact E].
+  - destruct pc as [lows|lows|ic]; cbn [render_proto] in E.
+    + cbn [apply_case w_tcp app] in E. eapply head_not_bh; [exact E|]. destruct (hd false lows); discriminate.
+    + cbn [apply_case w_udp app] in E. eapply head_not_bh; [exact E|]. destruct (hd false lows); discriminate.
+    + destruct (uint_head ic pp) as (h & tl & Eh & Hh & _). rewrite Eh in E. eapply head_not_bh; [exact E|exact Hh].
+  - destruct (uint_head ic pp) as (h & tl & Eh & Hh & _). rewrite Eh in E. eapply head_not_bh; [exact E|exact Hh].
 Qed.
 
 (* ---- check_backslash_hash --------------------------------------------------------------------------------------------------------- *)
@@ -719,6 +729,254 @@ Proof.
 Qed.
 End Generic2.
 
+(* ---- WKS (class IN): address, protocol, ports ------------------------------------------------------------------------------------------ *)
+
+Fixpoint mapi_from {A B} (k : nat) (f : nat -> A -> B) (l : list A) : list B :=
+  match l with [] => [] | x :: t => f k x :: mapi_from (S k) f t end.
+
+Lemma mapi_from_ext {A B} (f g : nat -> A -> B) : forall l k, (forall i x, (k <= i)%nat -> f i x = g i x) -> mapi_from k f l = mapi_from k g l.
+Proof.
+  induction l as [|x l IH]; intros k H; [reflexivity|]. cbn [mapi_from]. rewrite H by lia. rewrite (IH (S k)); [reflexivity|].
+  intros i y Hi. apply H. lia.
+Qed.
+
+Lemma mapi_from_comp {A B C} (f : nat -> A -> B) (g : nat -> B -> C) : forall l k,
+  mapi_from k g (mapi_from k f l) = mapi_from k (fun i x => g i (f i x)) l.
+Proof. induction l as [|x l IH]; intros k; [reflexivity|]. cbn [mapi_from]. rewrite IH. reflexivity. Qed.
+
+Lemma mapi_from_id {A} : forall (l : list A) k, mapi_from k (fun _ x => x) l = l.
+Proof. induction l as [|x l IH]; intros k; [reflexivity|]. cbn [mapi_from]. rewrite IH. reflexivity. Qed.
+
+Lemma mapi_from_length {A B} (f : nat -> A -> B) : forall l k, length (mapi_from k f l) = length l.
+Proof. induction l as [|x l IH]; intros k; [reflexivity|]. cbn [mapi_from length]. rewrite IH. reflexivity. Qed.
+
+Lemma mapi_from_repeat {A B} (f : nat -> A -> B) x : forall n k, mapi_from k f (repeat x n) = map (fun i => f i x) (seq k n).
+Proof. induction n as [|n IH]; intros k; [reflexivity|]. cbn [repeat mapi_from seq map]. rewrite IH. reflexivity. Qed.
+
+Lemma list_set_mapi {A} (g : A -> A) : forall (l : list A) k off old, nth_error l off = Some old ->
+  list_set l off (g old) = Some (mapi_from k (fun i x => if (i =? k + off)%nat then g x else x) l).
+Proof.
+  induction l as [|y l IH]; intros k off old H; [destruct off; discriminate|].
+  destruct off as [|off]; cbn [nth_error] in H.
+  - inversion H; subst. cbn [list_set mapi_from]. rewrite Nat.add_0_r, Nat.eqb_refl. f_equal. f_equal.
+    rewrite <- (mapi_from_id l (S k)) at 1. apply mapi_from_ext. intros i x Hi.
+    destruct (i =? k)%nat eqn:E; [apply Nat.eqb_eq in E; lia|reflexivity].
+  - cbn [list_set mapi_from]. rewrite (IH (S k) off old H).
+    destruct (k =? k + S off)%nat eqn:E; [apply Nat.eqb_eq in E; lia|]. f_equal. f_equal.
+    apply mapi_from_ext. intros i x _. replace (S k + off)%nat with (k + S off)%nat by lia. reflexivity.
+Qed.
+
+Lemma expect_field_ci_yes fld tok b : length tok = length fld -> eq_ignore_case tok fld = true ->
+  Forall (fun c => c <> 10) tok -> runs fend (expect_field_ci fld) tok b b true.
+Proof.
+  intros Hl Hc Hn r t E P W Ht. unfold expect_field_ci, expect_field_impl.
+  rewrite E, <- Hl, firstn_app_exact, Nat.eqb_refl, Hc, at_field_end_at_app. unfold fend in Ht. rewrite Ht. cbn [bind].
+  eexists. split; [reflexivity|]. subst b. apply post_adv; assumption.
+Qed.
+
+Lemma apply_case_no_nl lows s : Forall (fun c => c <> 10) s -> Forall (fun c => lower c <> 10) s ->
+  Forall (fun c => c <> 10) (apply_case lows s).
+Proof.
+  revert lows. induction s as [|c s IH]; intros lows H1 H2; [constructor|]. inversion H1; subst. inversion H2; subst.
+  cbn [apply_case]. constructor; [destruct (hd false lows); assumption|apply IH; assumption].
+Qed.
+
+Lemma directive_word lows w b : Forall (fun c => c <> 10) w -> Forall (fun c => lower c <> 10) w ->
+  runs fend (expect_field_ci w) (apply_case lows w) b b true.
+Proof.
+  intros H1 H2. apply expect_field_ci_yes; [apply apply_case_length|rewrite eqic_apply_case, eqic_lower; apply bytes_eqb_refl|apply apply_case_no_nl; assumption].
+Qed.
+
+Lemma directive_word_tcp lows b : runs fend (expect_field_ci [84; 67; 80]) (apply_case lows w_tcp) b b true.
+Proof. apply (directive_word lows [84; 67; 80]); repeat constructor; discriminate. Qed.
+Lemma directive_word_udp lows b : runs fend (expect_field_ci [85; 68; 80]) (apply_case lows w_udp) b b true.
+Proof. apply (directive_word lows [85; 68; 80]); repeat constructor; discriminate. Qed.
+
+Definition wks_bits (i : nat) (ports : list N) : list N :=
+  map (fun p => if p / 8 =? N.of_nat i then 2 ^ (p mod 8) else 0) ports.
+
+Lemma wks_set_mapi : forall ports buf, (forall p, In p ports -> (N.to_nat (p / 8) < length buf)%nat) ->
+  wks_set buf ports = Some (mapi_from 0 (fun i old => fold_left N.lor (wks_bits i ports) old) buf).
+Proof.
+  induction ports as [|p t IH]; intros buf Hb.
+  - cbn [wks_set wks_bits map fold_left]. rewrite mapi_from_id. reflexivity.
+  - cbn [wks_set]. assert (Hp : (N.to_nat (p / 8) < length buf)%nat) by (apply Hb; left; reflexivity).
+    destruct (nth_error buf (N.to_nat (p / 8))) as [old|] eqn:En; [|apply nth_error_None in En; lia].
+    rewrite (list_set_mapi (fun x => N.lor x (2 ^ (p mod 8))) buf 0 _ old En). cbn [Nat.add].
+    rewrite IH by (intros q Hq; rewrite mapi_from_length; apply Hb; right; exact Hq).
+    rewrite mapi_from_comp. f_equal. apply mapi_from_ext. intros i x _.
+    assert (Hc : (p / 8 =? N.of_nat i) = (i =? N.to_nat (p / 8))%nat).
+    { destruct (i =? N.to_nat (p / 8))%nat eqn:E.
+      - apply Nat.eqb_eq in E. subst i. rewrite N2Nat.id. apply N.eqb_refl.
+      - apply Nat.eqb_neq in E. apply N.eqb_neq. intros E2. apply E. rewrite E2, Nat2N.id. reflexivity. }
+    unfold wks_bits at 2. cbn [map fold_left]. fold (wks_bits i t). rewrite Hc.
+    destruct (i =? N.to_nat (p / 8))%nat; [reflexivity|]. rewrite N.lor_0_r. reflexivity.
+Qed.
+
+Lemma list_max_fold : forall l, l <> [] -> ZfParser.list_max l = Some (fold_right N.max 0 l).
+Proof.
+  induction l as [|x l IH]; intros H; [congruence|]. cbn [ZfParser.list_max fold_right].
+  destruct l as [|y l]; [cbn; rewrite N.max_0_r; reflexivity|]. rewrite IH by discriminate. reflexivity.
+Qed.
+
+Lemma fold_max_ge : forall l p, In p l -> p <= fold_right N.max 0 l.
+Proof.
+  induction l as [|x l IH]; intros p H; [destruct H|]. cbn [fold_right]. destruct H as [->|H]; [lia|]. specialize (IH p H). lia.
+Qed.
+
+Lemma fold_max_bound : forall l b, Forall (fun p => p <= b) l -> fold_right N.max 0 l <= b.
+Proof. induction 1 as [|x l Hx _ IH]; cbn [fold_right]; lia. Qed.
+
+Lemma new_in_wks_runs (T : bytes -> Prop) addr proto ports p : length addr = 4%nat -> Forall (fun q => q <= 65535) ports ->
+  runs T (new_in_wks addr proto ports) [] p p (addr ++ [proto] ++ wks_bitmap ports).
+Proof.
+  intros Ha Hp. unfold new_in_wks, wks_bitmap, wks_len. destruct ports as [|q ports].
+  - cbn [ZfParser.list_max repeat wks_set seq map]. apply mk_rdata_runs. rewrite !app_length, Ha. simpl. lia.
+  - set (ps := q :: ports) in *. rewrite (list_max_fold ps) by discriminate. rewrite Nat.add_1_r.
+    set (len := S (N.to_nat (fold_right N.max 0 ps / 8))).
+    rewrite (wks_set_mapi ps (repeat 0 len)).
+    + rewrite mapi_from_repeat. apply mk_rdata_runs. rewrite !app_length, map_length, seq_length, Ha. cbn [length].
+      pose proof (fold_max_bound ps 65535 Hp) as Hm. subst len.
+      pose proof (N.div_le_mono _ _ 8 ltac:(lia) Hm) as Hd. change (65535 / 8) with 8191 in Hd.
+      revert Hd. generalize (fold_right N.max 0 ps / 8). intros m8 Hd. lia.
+    + intros r Hr. rewrite repeat_length. subst len. pose proof (fold_max_ge ps r Hr) as Hle.
+      pose proof (N.div_le_mono _ _ 8 ltac:(lia) Hle) as Hd. revert Hd. generalize (fold_right N.max 0 ps / 8) (r / 8). intros m8 r8 Hd. lia.
+Qed.
+
+Lemma uint_head2 ic n : exists h tl, render_uint ic n = h :: tl /\ (h = 43 \/ 48 <= h <= 57).
+Proof.
+  destruct (uint_digits_val ic n) as (Hne & Hd & _). unfold render_uint. destruct (i_plus ic).
+  - eexists _, _. split; [reflexivity|]. left. reflexivity.
+  - cbn [app]. destruct (repeat 48 (i_zeros ic) ++ dec n) as [|h tl]; [congruence|].
+    inversion Hd as [|? ? Hh _]; subst. exists h, tl. split; [reflexivity|]. right. unfold digit_of in Hh. lia.
+Qed.
+
+Lemma expect_ci_differs_head fld r h l d fl : r_rest r = h :: l -> fld = d :: fl -> lower h <> lower d ->
+  expect_field_ci fld r = Ok (false, r).
+Proof.
+  intros E -> H. apply expect_field_differs. rewrite E. cbn [length firstn eq_ignore_case]. apply N.eqb_neq in H. rewrite H. reflexivity.
+Qed.
+
+Definition proto_m : M N :=
+  do tcp <- expect_field_ci [84; 67; 80];
+  (if tcp then ret 6 else do udp <- expect_field_ci [85; 68; 80]; if udp then ret 17 else parse_u8 InvalidInt).
+
+Lemma proto_runs pc p b : proto_ok pc p = true -> runs fend proto_m (render_proto pc p) b b p.
+Proof.
+  intros H. unfold proto_m. destruct pc as [lows|lows|ic]; cbn [proto_ok render_proto] in *.
+  - apply N.eqb_eq in H. subst p. apply runs_app_nil.
+    eapply runs_bind; [apply (directive_word_tcp lows)|intros t Ht; exact Ht|]. cbv beta iota. apply runs_ret.
+  - apply N.eqb_eq in H. subst p. eapply runs_peek.
+    { intros r t E _. cbn [apply_case w_udp app] in E. eapply expect_ci_differs_head; [exact E|reflexivity|]. destruct (hd false lows); discriminate. }
+    cbv beta iota. apply runs_app_nil.
+    eapply runs_bind; [apply (directive_word_udp lows)|intros t Ht; exact Ht|]. cbv beta iota. apply runs_ret.
+  - destruct (uint_head2 ic p) as (h & tl & Eh & Hh).
+    assert (Hl : lower h = h) by (unfold lower; destruct ((65 <=? h) && (h <=? 90)) eqn:E; [apply andb_true_iff in E; destruct E as [E1 E2]; apply N.leb_le in E1, E2; lia|reflexivity]).
+    eapply runs_peek.
+    { intros r t E _. rewrite Eh in E. cbn [app] in E. eapply expect_ci_differs_head; [exact E|reflexivity|]. rewrite Hl. change (lower 84) with 116. lia. }
+    cbv beta iota. eapply runs_peek.
+    { intros r t E _. rewrite Eh in E. cbn [app] in E. eapply expect_ci_differs_head; [exact E|reflexivity|]. rewrite Hl. change (lower 85) with 117. lia. }
+    cbv beta iota. apply (uint_field_runs U8_MAX); [unfold U8_MAX; lia|exact H].
+Qed.
+
+Definition is_port (f : fval) : Prop := exists p, f = VPort p.
+
+Lemma ports_wire_nil fs : Forall is_port fs -> flat_map field_wire fs = [].
+Proof. induction 1 as [|f fs [p ->] _ IH]; [reflexivity|]. cbn [flat_map field_wire app]. exact IH. Qed.
+
+Lemma sep_render_nonempty s : sep_empty s = false -> render_sep s <> [].
+Proof.
+  unfold sep_empty, render_sep. destruct (s_groups s) as [|[bl it] gs].
+  - destruct (s_tail s); [discriminate|]. intros _. discriminate.
+  - intros _ Hn. cbn [flat_map] in Hn. unfold render_group_s in Hn at 1. cbn [fst snd] in Hn.
+    apply app_eq_nil in Hn. destruct Hn as [Hn _]. apply app_eq_nil in Hn. destruct Hn as [Hn _]. apply app_eq_nil in Hn. destruct Hn as [_ Hn].
+    destruct it as [| |[|]|? ?]; discriminate Hn.
+Qed.
+
+Section Wks.
+Variable x : sctx.
+Variables (e : eolc).
+Let T := eoft (e_term e).
+Let o := x_origin x.
+
+Lemma wks_loop_runs start : forall fs cs p1 p3 count ports_rev fuel,
+  fields_ok o false false p1 cs fs = Some p3 -> Forall is_port fs -> eol_ok p3 e = true ->
+  count + N.of_nat (length fs) <= 65535 ->
+  runsN fuel T (wks_loop fuel start count ports_rev) (render_fields cs fs ++ render_eol e) p1 false
+        (rev (ports_of fs) ++ ports_rev).
+Proof.
+  induction fs as [|f fs IH]; intros cs p1 p3 count ports_rev fuel H Hall He Hc;
+    (destruct fuel as [|fuel]; [apply runsN_0|]); cbn [wks_loop].
+  - apply fields_ok_nil in H. subst p3. cbn [render_fields app ports_of flat_map rev].
+    apply runs_N. apply runs_app_nil. eapply runs_bind; [apply through_eol_runs; exact He|intros t Ht; exact Ht|].
+    cbv beta iota. apply runs_ret.
+  - apply fields_ok_cons in H. destruct H as (q & Hs & Hf & H). pose proof (sep_ok_inv _ _ _ _ Hs) as [HP HE].
+    inversion Hall as [|? ? [pp ->] Hall']; subst. cbn [length] in Hc.
+    cbn [render_fields]. rewrite <- !app_assoc.
+    eapply runsN_bind_dec; [apply through_field_runs; exact HP| | |].
+    { apply sep_render_nonempty. apply HE. reflexivity. }
+    { intros t Ht. rewrite <- app_assoc. eapply field_fstart. exact Hf. }
+    cbv beta iota.
+    destruct (65535 <=? count) eqn:Ec; [apply N.leb_le in Ec; lia|].
+    assert (Hu : uint_ok 65535 (fc_int (snd (hd (sep_none, CPlain) cs))) pp = true).
+    { destruct (snd (hd (sep_none, CPlain) cs)); cbn [field_ok] in Hf; try discriminate Hf. exact Hf. }
+    cbn [render_field].
+    eapply runsN_bind; [apply u16_runs; exact Hu| |].
+    { intros t Ht. destruct fs as [|f2 fs2].
+      - apply fields_ok_nil in H. subst p3. cbn [render_fields app]. eapply fend_eol; eassumption.
+      - apply fields_ok_cons in H. destruct H as (q2 & Hs2 & _). cbn [field_closed] in Hs2. cbn [render_fields]. rewrite <- !app_assoc. eapply fend_sep; [exact (proj1 (sep_ok_inv _ _ _ _ Hs2))|apply (proj2 (sep_ok_inv _ _ _ _ Hs2)); reflexivity]. }
+    cbv beta.
+    specialize (IH (tl cs) q p3 (count + 1) (pp :: ports_rev) fuel H Hall' He ltac:(lia)).
+    replace (rev (ports_of (VPort pp :: fs)) ++ ports_rev) with (rev (ports_of fs) ++ pp :: ports_rev).
+    + exact IH.
+    + cbn [ports_of flat_map app rev]. fold (ports_of fs). rewrite <- app_assoc. reflexivity.
+Qed.
+End Wks.
+
+Lemma ports_value fs : Forall is_port fs -> forallb value_ok fs = true -> Forall (fun q => q <= 65535) (ports_of fs).
+Proof.
+  induction 1 as [|f fs [p ->] _ IH]; intros Hv; [constructor|]. cbn [forallb] in Hv. apply andb_true_iff in Hv. destruct Hv as [Hp Hv].
+  cbn [ports_of flat_map app]. constructor; [cbn [value_ok] in Hp; apply N.leb_le; exact Hp|apply IH; exact Hv].
+Qed.
+
+Lemma wks_wire a b c d proto fs : Forall is_port fs ->
+  rdata_wire (AFields (VIp4 a b c d :: VProto proto :: fs)) = [a; b; c; d] ++ [proto] ++ wks_bitmap (ports_of fs).
+Proof.
+  intros H. cbn [rdata_wire]. change (ports_of (VIp4 a b c d :: VProto proto :: fs)) with (ports_of fs).
+  change (flat_map field_wire (VIp4 a b c d :: VProto proto :: fs)) with ([a; b; c; d] ++ [proto] ++ flat_map field_wire fs).
+  rewrite (ports_wire_nil fs H). destruct (ports_of fs) eqn:E; [reflexivity|]. rewrite app_nil_r. reflexivity.
+Qed.
+
+Theorem wks_runs x e cs a b c d proto fs p p3 : sctx_good x ->
+  fields_ok (x_origin x) true false p cs (VIp4 a b c d :: VProto proto :: fs) = Some p3 -> Forall is_port fs ->
+  forallb value_ok fs = true -> N.of_nat (length fs) <= 65535 -> eol_ok p3 e = true ->
+  runs (eoft (e_term e)) parse_in_wks_rdata (render_fields cs (VIp4 a b c d :: VProto proto :: fs) ++ render_eol e) p false
+       (rdata_wire (AFields (VIp4 a b c d :: VProto proto :: fs))).
+Proof.
+  intros Hx H Hall Hv Hn He. rewrite (wks_wire a b c d proto fs Hall).
+  apply fields_ok_cons in H. destruct H as (q1 & Hs1 & Hf1 & H). pose proof (sep_ok_inv _ _ _ _ Hs1) as [HP1 _].
+  apply fields_ok_cons in H. destruct H as (q2 & Hs2 & Hf2 & H). pose proof (sep_ok_inv _ _ _ _ Hs2) as [HP2 _].
+  cbn [render_fields]. rewrite <- !app_assoc. unfold parse_in_wks_rdata.
+  eapply cbh_false_runs; [exact HP1|intros; eapply (field_fstart2 x); exact Hf1|intros; eapply (field_not_bh2 x); eassumption|].
+  cbv beta iota. apply runs_getpos. intros start.
+  eapply runs_bind; [apply ip4_field_runs; eapply fok_ip4; exact Hf1|intros; cbn [field_closed] in Hs2; apply (mid_tail q1 false _ q2); exact Hs2|].
+  cbv beta.
+  eapply runs_bind; [apply skip_to_next_field_runs; exact HP2|intros; eapply (field_fstart2 x); exact Hf2|].
+  cbv beta.
+  assert (Hpc : proto_ok (fc_proto (snd (hd (sep_none, CPlain) (tl cs)))) proto = true).
+  { destruct (snd (hd (sep_none, CPlain) (tl cs))); cbn [field_ok] in Hf2; try discriminate Hf2. exact Hf2. }
+  eapply runs_eq; [intros r; symmetry; apply (bindM_assoc (expect_field_ci [84; 67; 80]))|].
+  cbn [render_field].
+  eapply runs_bind; [apply proto_runs; exact Hpc| |].
+  { intros t Ht. destruct fs as [|f3 fs3].
+    - apply fields_ok_nil in H. subst p3. cbn [render_fields app]. eapply fend_eol; eassumption.
+    - apply fields_ok_cons in H. destruct H as (q3 & Hs3 & _). cbn [field_closed] in Hs3. cbn [render_fields]. rewrite <- !app_assoc. eapply fend_sep; [exact (proj1 (sep_ok_inv _ _ _ _ Hs3))|apply (proj2 (sep_ok_inv _ _ _ _ Hs3)); reflexivity]. }
+  cbv beta. apply runs_get_fuel. intros fuel. apply runsN_app_nil.
+  eapply runsN_bind_l; [eapply (wks_loop_runs x e start fs (tl (tl cs)) q2 p3 0 [] fuel); [exact H|exact Hall|exact He|lia]|intros t Ht; exact Ht|].
+  cbv beta. rewrite app_nil_r, rev_fast_rev, rev_involutive.
+  apply new_in_wks_runs; [reflexivity|apply ports_value; assumption].
+Qed.
+
 (* ---- parse_rdata: every type, both syntaxes ---------------------------------------------------------------------------------------- *)
 
 Lemma rdata_ok_inv o p class type dc d p3 : rdata_ok o p class type dc d = Some p3 ->
@@ -758,6 +1016,12 @@ Proof.
   - destruct fs; [congruence|discriminate].
 Qed.
 
+Lemma str_ports fs : Forall is_str fs -> ports_of fs = [].
+Proof. induction 1 as [|f fs [s ->] _ IH]; [reflexivity|]. cbn [ports_of flat_map app]. exact IH. Qed.
+
+Lemma str_wire fs : Forall is_str fs -> rdata_wire (AFields fs) = flat_map field_wire fs.
+Proof. intros H. cbn [rdata_wire]. rewrite (str_ports fs H). reflexivity. Qed.
+
 Ltac inv_kinds H fs :=
   repeat (destruct fs as [|?f fs]; [try discriminate H|destruct f; try discriminate H];
           cbn [map kind_of kinds_eqb fkind_eqb andb] in H).
@@ -774,78 +1038,87 @@ Proof.
   change (existsb (N.eqb type) [2; 3; 4; 5; 7; 8; 9; 12]) with (existsb (N.eqb type) name_types).
   unfold rdata_fits, fields_fit, rform_of in Hfit.
   destruct (existsb (N.eqb type) name_types) eqn:E1.
-  { destruct d as [fs|data]; [|rewrite andb_false_r in Hfit; discriminate Hfit]. apply andb_true_iff in Hfit. destruct Hfit as [Hv Hk].
+  { destruct d as [fs|data]; [|discriminate Hfit]. apply andb_true_iff in Hfit. destruct Hfit as [Hv Hk].
     inv_kinds Hk fs. split_values Hv. pose proof (value_name _ Hv0) as Hg.
     destruct Hform as [(cs & fs' & -> & [= <-] & Hok)|(z0 & z1 & ic & ws & -> & Hgen)].
     - eapply name_rdata_runs; eassumption.
-    - eapply (validated_runs e); [exact Hgen|exact He|]. cbn [rdata_wire flat_map field_wire]. rewrite app_nil_r. apply vname_all_wire. exact Hg. }
+    - eapply (validated_runs e); [exact Hgen|exact He|]. cbn [rdata_wire ports_of flat_map field_wire app]. rewrite app_nil_r. apply vname_all_wire. exact Hg. }
   destruct ((type =? 1) && (class =? 1)) eqn:E2.
-  { destruct d as [fs|data]; [|rewrite andb_false_r in Hfit; discriminate Hfit]. apply andb_true_iff in Hfit. destruct Hfit as [Hv Hk].
+  { destruct d as [fs|data]; [|discriminate Hfit]. apply andb_true_iff in Hfit. destruct Hfit as [Hv Hk].
     inv_kinds Hk fs.
     destruct Hform as [(cs & fs' & -> & [= <-] & Hok)|(z0 & z1 & ic & ws & -> & Hgen)].
     - eapply in_a_runs; eassumption.
     - eapply (validated_runs e); [exact Hgen|exact He|]. reflexivity. }
   destruct ((type =? 1) && (class =? 3)) eqn:E3.
-  { destruct d as [fs|data]; [|rewrite andb_false_r in Hfit; discriminate Hfit]. apply andb_true_iff in Hfit. destruct Hfit as [Hv Hk].
+  { destruct d as [fs|data]; [|discriminate Hfit]. apply andb_true_iff in Hfit. destruct Hfit as [Hv Hk].
     inv_kinds Hk fs. split_values Hv. pose proof (value_name _ Hv0) as Hg.
     destruct Hform as [(cs & fs' & -> & [= <-] & Hok)|(z0 & z1 & ic & ws & -> & Hgen)].
     - eapply ch_a_runs; eassumption.
-    - eapply (validated_runs e); [exact Hgen|exact He|]. cbn [rdata_wire flat_map field_wire]. rewrite app_nil_r.
+    - eapply (validated_runs e); [exact Hgen|exact He|]. cbn [rdata_wire ports_of flat_map field_wire app]. rewrite app_nil_r.
       apply (ok_ch_a (name_of ls) n). apply good_name_of. exact Hg. }
   destruct (type =? 6) eqn:E4.
-  { destruct d as [fs|data]; [|rewrite andb_false_r in Hfit; discriminate Hfit]. apply andb_true_iff in Hfit. destruct Hfit as [Hv Hk].
+  { destruct d as [fs|data]; [|discriminate Hfit]. apply andb_true_iff in Hfit. destruct Hfit as [Hv Hk].
     inv_kinds Hk fs. split_values Hv. pose proof (value_name _ Hv0) as Hg1. pose proof (value_name _ Hv1) as Hg2.
     destruct Hform as [(cs & fs' & -> & [= <-] & Hok)|(z0 & z1 & ic & ws & -> & Hgen)].
     - eapply soa_runs; eassumption.
-    - eapply (validated_runs e); [exact Hgen|exact He|]. cbn [rdata_wire flat_map field_wire].
+    - eapply (validated_runs e); [exact Hgen|exact He|]. cbn [rdata_wire ports_of flat_map field_wire app].
       apply (ok_soa (name_of ls) (name_of ls0)); [apply good_name_of; exact Hg1|apply good_name_of; exact Hg2|reflexivity]. }
   destruct ((type =? 11) && (class =? 1)) eqn:EW.
-  { exfalso. apply andb_true_iff in EW. destruct EW as [Et Ec]. apply N.eqb_eq in Et, Ec. subst type class.
-    destruct d as [fs|data]; cbn in Hfit; [apply andb_true_iff in Hfit; destruct Hfit as [_ Hfit]|]; discriminate. }
+  { destruct d as [fs|data]; [|discriminate Hfit]. apply andb_true_iff in Hfit. destruct Hfit as [Hv Hk].
+    destruct fs as [|f1 [|f2 ports]]; try discriminate Hk.
+    apply andb_true_iff in Hk. destruct Hk as [Hk Hcount]. apply andb_true_iff in Hk. destruct Hk as [Hk Hports].
+    apply andb_true_iff in Hk. destruct Hk as [Hk1 Hk2]. destruct f1; try discriminate Hk1. destruct f2; try discriminate Hk2.
+    apply N.leb_le in Hcount.
+    assert (Hall : Forall is_port ports).
+    { apply Forall_forall. intros f Hf. rewrite forallb_forall in Hports. specialize (Hports f Hf). destruct f; try discriminate Hports. eexists. reflexivity. }
+    cbn [forallb] in Hv. apply andb_true_iff in Hv. destruct Hv as [_ Hv]. apply andb_true_iff in Hv. destruct Hv as [_ Hv].
+    destruct Hform as [(cs & fs' & -> & [= <-] & Hok)|(z0 & z1 & ic & ws & -> & Hgen)].
+    - eapply wks_runs; eassumption.
+    - eapply (validated_runs e); [exact Hgen|exact He|]. rewrite (wks_wire _ _ _ _ _ _ Hall). reflexivity. }
   destruct (type =? 13) eqn:E5.
-  { destruct d as [fs|data]; [|rewrite andb_false_r in Hfit; discriminate Hfit]. apply andb_true_iff in Hfit. destruct Hfit as [Hv Hk].
+  { destruct d as [fs|data]; [|discriminate Hfit]. apply andb_true_iff in Hfit. destruct Hfit as [Hv Hk].
     inv_kinds Hk fs. split_values Hv. pose proof (value_str _ Hv0) as L1. pose proof (value_str _ Hv1) as L2.
     destruct Hform as [(cs & fs' & -> & [= <-] & Hok)|(z0 & z1 & ic & ws & -> & Hgen)].
     - eapply hinfo_runs; eassumption.
-    - eapply (validated_runs e); [exact Hgen|exact He|]. cbn [rdata_wire flat_map field_wire]. rewrite app_nil_r.
+    - eapply (validated_runs e); [exact Hgen|exact He|]. cbn [rdata_wire ports_of flat_map field_wire app]. rewrite app_nil_r.
       rewrite <- (chunk_wire s L1), <- (chunk_wire s0 L2). apply (ok_hinfo s s0); assumption. }
   destruct (type =? 14) eqn:E6.
-  { destruct d as [fs|data]; [|rewrite andb_false_r in Hfit; discriminate Hfit]. apply andb_true_iff in Hfit. destruct Hfit as [Hv Hk].
+  { destruct d as [fs|data]; [|discriminate Hfit]. apply andb_true_iff in Hfit. destruct Hfit as [Hv Hk].
     inv_kinds Hk fs. split_values Hv. pose proof (value_name _ Hv0) as Hg1. pose proof (value_name _ Hv1) as Hg2.
     destruct Hform as [(cs & fs' & -> & [= <-] & Hok)|(z0 & z1 & ic & ws & -> & Hgen)].
     - eapply minfo_runs; eassumption.
-    - eapply (validated_runs e); [exact Hgen|exact He|]. cbn [rdata_wire flat_map field_wire]. rewrite app_nil_r.
+    - eapply (validated_runs e); [exact Hgen|exact He|]. cbn [rdata_wire ports_of flat_map field_wire app]. rewrite app_nil_r.
       apply (ok_minfo (name_of ls) (name_of ls0)); apply good_name_of; assumption. }
   destruct (type =? 15) eqn:E7.
-  { destruct d as [fs|data]; [|rewrite andb_false_r in Hfit; discriminate Hfit]. apply andb_true_iff in Hfit. destruct Hfit as [Hv Hk].
+  { destruct d as [fs|data]; [|discriminate Hfit]. apply andb_true_iff in Hfit. destruct Hfit as [Hv Hk].
     inv_kinds Hk fs. split_values Hv. pose proof (value_name _ Hv1) as Hg.
     destruct Hform as [(cs & fs' & -> & [= <-] & Hok)|(z0 & z1 & ic & ws & -> & Hgen)].
     - eapply mx_runs; eassumption.
-    - eapply (validated_runs e); [exact Hgen|exact He|]. cbn [rdata_wire flat_map field_wire]. rewrite app_nil_r.
+    - eapply (validated_runs e); [exact Hgen|exact He|]. cbn [rdata_wire ports_of flat_map field_wire app]. rewrite app_nil_r.
       apply (ok_mx n (name_of ls)). apply good_name_of. exact Hg. }
   destruct (type =? 16) eqn:E8.
-  { destruct d as [fs|data]; [|rewrite andb_false_r in Hfit; discriminate Hfit]. apply andb_true_iff in Hfit. destruct Hfit as [Hv Hk].
+  { destruct d as [fs|data]; [|discriminate Hfit]. apply andb_true_iff in Hfit. destruct Hfit as [Hv Hk].
     apply andb_true_iff in Hk. destruct Hk as [Hne Hstr].
     assert (Hall : Forall is_str fs).
     { apply Forall_forall. intros f Hf. rewrite forallb_forall in Hstr. specialize (Hstr f Hf). destruct f; try discriminate Hstr. eexists. reflexivity. }
-    destruct fs as [|f fs]; [discriminate Hne|].
+    destruct fs as [|f fs]; [discriminate Hne|]. rewrite (str_wire _ Hall) in *.
     destruct Hform as [(cs & fs' & -> & [= <-] & Hok)|(z0 & z1 & ic & ws & -> & Hgen)].
     - eapply txt_runs; eassumption.
-    - eapply (validated_runs e); [exact Hgen|exact He|]. apply txt_valid; [discriminate|exact Hall|exact Hv]. }
+    - cbn [render_rdata]. rewrite (str_wire _ Hall). eapply (validated_runs e); [exact Hgen|exact He|]. apply txt_valid; [discriminate|exact Hall|exact Hv]. }
   destruct ((type =? 28) && (class =? 1)) eqn:E9.
-  { destruct d as [fs|data]; [|rewrite andb_false_r in Hfit; discriminate Hfit]. apply andb_true_iff in Hfit. destruct Hfit as [Hv Hk].
+  { destruct d as [fs|data]; [|discriminate Hfit]. apply andb_true_iff in Hfit. destruct Hfit as [Hv Hk].
     inv_kinds Hk fs. split_values Hv.
     destruct Hform as [(cs & fs' & -> & [= <-] & Hok)|(z0 & z1 & ic & ws & -> & Hgen)].
     - eapply in_aaaa_runs; eassumption.
-    - eapply (validated_runs e); [exact Hgen|exact He|]. cbn [rdata_wire flat_map field_wire]. rewrite app_nil_r.
+    - eapply (validated_runs e); [exact Hgen|exact He|]. cbn [rdata_wire ports_of flat_map field_wire app]. rewrite app_nil_r.
       unfold validate_as_in_aaaa. rewrite flat_sbe16_len. cbn [value_ok] in Hv0. apply andb_true_iff in Hv0. destruct Hv0 as [L _].
       apply Nat.eqb_eq in L. rewrite L. reflexivity. }
   destruct ((type =? 33) && (class =? 1)) eqn:E10.
-  { destruct d as [fs|data]; [|rewrite andb_false_r in Hfit; discriminate Hfit]. apply andb_true_iff in Hfit. destruct Hfit as [Hv Hk].
+  { destruct d as [fs|data]; [|discriminate Hfit]. apply andb_true_iff in Hfit. destruct Hfit as [Hv Hk].
     inv_kinds Hk fs. split_values Hv. pose proof (value_name _ Hv3) as Hg.
     destruct Hform as [(cs & fs' & -> & [= <-] & Hok)|(z0 & z1 & ic & ws & -> & Hgen)].
     - eapply srv_runs; eassumption.
-    - eapply (validated_runs e); [exact Hgen|exact He|]. cbn [rdata_wire flat_map field_wire]. rewrite app_nil_r.
+    - eapply (validated_runs e); [exact Hgen|exact He|]. cbn [rdata_wire ports_of flat_map field_wire app]. rewrite app_nil_r.
       apply (ok_srv n n0 n1 (name_of ls)). apply good_name_of. exact Hg. }
   (* no syntax of its own *)
   destruct d as [fs|data].
